@@ -622,6 +622,10 @@ def m_range(interp, *args):
         stp = 1
     else:
         lo, hi, stp = args
+    if isinstance(stp, int) and not isinstance(stp, bool) and stp > 1:
+        # range(lo, hi, step) with a concrete positive step: ceil((hi - lo) / step) elements lo + k*step
+        n = m_max(interp, (hi - lo + (stp - 1)) // stp, 0)
+        return SymSeq(n, lambda k: lo + k * stp, "range")
     if stp != 1:
         raise Unsupported("symbolic range with step")
     n = m_max(interp, hi - lo, 0)
